@@ -205,6 +205,7 @@ func checkC14(c *core.Ctx, l *core.Ledger) {
 	}
 	l.Floor("EQ-KIND", 8)
 	checkPerItemState(c, l)
+	checkNotFoundUnequal(c, l)
 	checkEqPrim(c, l)
 
 	// EQ-EXH
